@@ -3,12 +3,11 @@ module verif
 go 1.25
 
 require (
+	github.com/gogo/protobuf v1.3.2
 	github.com/zeebo/errs v1.2.2
 	google.golang.org/protobuf v1.27.1
 	pgregory.net/rapid v1.3.0
 	storj.io/drpc v0.0.0
 )
-
-require github.com/gogo/protobuf v1.3.2
 
 replace storj.io/drpc => /repo
